@@ -34,7 +34,7 @@ func init() {
 				}
 				return bs
 			}
-			bs := []Batch{{Mode: "seeded", Count: 12000}}
+			bs := []Batch{{Mode: "seeded", Count: 60000}}
 			if prop == "C02" {
 				// destination count 0..255 x body length on a coarse grid, all four submit types
 				bs = append(bs, Batch{Mode: "count-sweep-coarse", Count: 4 * 256 * 8, Exhaustive: true})
